@@ -49,7 +49,7 @@ def build_cases(tier, seed):
         "assumptions": [
             "small scope: n<=3 candidates (n<=4 thorough), K<=2..3 distinct ballot types, weights from a handful of values",
             "PluralityVeto only with total weight <= 4 (quick) so that all voter orders are enumerated",
-            "pairwise rules (DominatingSets, CondoBorda) and the STV family only on untied ballots",
+            "the STV family only on untied ballots",
             "score-rule profiles that the rule rejects with TypeError are not 'accepted profiles' (judged by C05)",
         ],
     }
@@ -122,6 +122,11 @@ def rule_menu(kind, tag, case, tier):
                             yield ("Alaska", "Alaska",
                                    dict(m_1=m1, m_2=m2, quota=q, simultaneous=sim, tiebreak=tb, transfer=tr),
                                    m2, ("alaska", m1, m2, q, sim, tb, tr))
+    if kind == "weak":
+        # the pairwise rules accept tied positions (a tied pair counts for neither candidate)
+        yield "DominatingSets", "DominatingSets", {}, None, ("dom",)
+        for m in ms:
+            yield "CondoBorda", "CondoBorda", dict(m=m), m, ("none",)
     for m in ms:
         for tb in common.TBS:
             yield "Plurality", "Plurality", dict(m=m, tiebreak=tb), m, ("fpv", m, tb)
